@@ -193,6 +193,24 @@ class Ledger:
         return self.counter
 
 
+def earlier_simulation(resource, supply):
+    """a complete, separate run() in which the same resource object was contended and
+    everything was given back"""
+    import usim
+    field, amount = sorted(supply.items())[0]
+
+    async def user(hold):
+        async with resource.borrow(**{field: amount}):
+            await (time + hold)
+
+    async def main():
+        async with usim.Scope() as scope:
+            scope.do(user(1))
+            scope.do(user(0.5))
+            scope.do(user(0))
+    usim.run(main())
+
+
 def build_for(case):
     scenario = case['scenario']
     fields = sorted(scenario['supply'])
@@ -202,6 +220,8 @@ def build_for(case):
             resource = Capacities(**scenario['supply'])
         else:
             resource = Resources(**scenario['supply'])
+        if case['index'] % 5 < 2:
+            earlier_simulation(resource, scenario['supply'])
         ledger = Ledger(arena, fields)
         top = ledger.pool('top', resource, scenario['supply'])
         shared = {}
